@@ -252,6 +252,54 @@ impl MulSpecImpl<Isometry3> for Isometry3 {
 }
 impl core::ops::Deref for UnitVector3 { type Target = Vector3; #[verifier::external_body] fn deref(&self) -> (r: &Vector3) ensures *r == self.value { unimplemented!() } }
 
+// ---- points (frame.rs) ------------------------------------------------------------------------
+#[derive(Clone, Copy)]
+pub struct Point3 { pub x: f64, pub y: f64, pub z: f64 }
+impl Point3 {
+    pub open spec fn v(self) -> V3 { V3 { x: rv(self.x), y: rv(self.y), z: rv(self.z) } }
+    pub open spec fn pfin(self) -> bool { fin(self.x) && fin(self.y) && fin(self.z) }
+}
+pub uninterp spec fn pt_sub_c(a: Point3, b: Point3, i: int) -> f64;
+pub open spec fn pt_sub_s(a: Point3, b: Point3) -> Vector3 { Vector3 { x: pt_sub_c(a, b, 0), y: pt_sub_c(a, b, 1), z: pt_sub_c(a, b, 2) } }
+impl core::ops::Sub<Point3> for Point3 { type Output = Vector3; #[verifier::external_body] fn sub(self, rhs: Point3) -> Vector3 { unimplemented!() } }
+impl SubSpecImpl<Point3> for Point3 {
+    open spec fn obeys_sub_spec() -> bool { true }
+    open spec fn sub_req(self, rhs: Point3) -> bool { true }
+    open spec fn sub_spec(self, rhs: Point3) -> Vector3 { pt_sub_s(self, rhs) }
+}
+pub broadcast axiom fn ax_pt_sub(a: Point3, b: Point3)
+    ensures
+        #![trigger pt_sub_s(a, b)]
+        a.pfin() && b.pfin() ==> pt_sub_s(a, b).vfin() && pt_sub_s(a, b).v() == vsub(a.v(), b.v());
+pub open spec fn vcross(p: V3, q: V3) -> V3 { V3 { x: p.y * q.z - p.z * q.y, y: p.z * q.x - p.x * q.z, z: p.x * q.y - p.y * q.x } }
+pub uninterp spec fn cross_c(a: Vector3, b: Vector3, i: int) -> f64;
+pub open spec fn cross_s(a: Vector3, b: Vector3) -> Vector3 { Vector3 { x: cross_c(a, b, 0), y: cross_c(a, b, 1), z: cross_c(a, b, 2) } }
+pub uninterp spec fn normalize_c(a: Vector3, i: int) -> f64;
+pub open spec fn normalize_s(a: Vector3) -> Vector3 { Vector3 { x: normalize_c(a, 0), y: normalize_c(a, 1), z: normalize_c(a, 2) } }
+pub broadcast axiom fn ax_cross(a: Vector3, b: Vector3)
+    ensures
+        #![trigger cross_s(a, b)]
+        a.vfin() && b.vfin() ==> cross_s(a, b).vfin() && cross_s(a, b).v() == vcross(a.v(), b.v());
+impl Vector3 {
+    #[verifier::external_body]
+    pub fn cross(&self, other: &Vector3) -> (r: Vector3) ensures r == cross_s(*self, *other) { unimplemented!() }
+    #[verifier::external_body]
+    pub fn normalize(&self) -> (r: Vector3) ensures r == normalize_s(*self) { unimplemented!() }
+}
+pub uninterp spec fn from_columns_s(a: Vector3, b: Vector3, c: Vector3) -> Matrix3;
+pub uninterp spec fn transpose_s(m: Matrix3) -> Matrix3;
+pub uninterp spec fn transform_point_s(q: UnitQuaternion, p: Point3) -> Point3;
+impl Matrix3 {
+    #[verifier::external_body]
+    pub fn from_columns(cols: &[Vector3; 3]) -> (r: Matrix3) ensures r == from_columns_s(cols[0], cols[1], cols[2]) { unimplemented!() }
+    #[verifier::external_body]
+    pub fn transpose(&self) -> (r: Matrix3) ensures r == transpose_s(*self) { unimplemented!() }
+}
+impl UnitQuaternion {
+    #[verifier::external_body]
+    pub fn transform_point(&self, p: &Point3) -> (r: Point3) ensures r == transform_point_s(*self, *p) { unimplemented!() }
+}
+
 pub broadcast axiom fn ax_mat_mul(a: Matrix3, b: Matrix3)
     requires a.mfin(), b.mfin()
     ensures (#[trigger] mat_mul_s(a, b)).mfin(), mat_mul_s(a, b).m() == mmul(a.m(), b.m());
@@ -283,7 +331,7 @@ pub broadcast axiom fn ax_iso_inv(a: Isometry3)
 pub open spec fn iso_wf(p: Iso) -> bool { proper(p.r) }
 
 pub broadcast group group_na {
-    ax_mat_mul, ax_mat_scale, ax_mat_vec, ax_vec_add, ax_vec_sub, ax_vec_scale, ax_iso_mul, ax_iso_inv, ax_norm,
+    ax_mat_mul, ax_mat_scale, ax_mat_vec, ax_vec_add, ax_vec_sub, ax_vec_scale, ax_iso_mul, ax_iso_inv, ax_norm, ax_pt_sub, ax_cross,
 }
 
 } // mod na
